@@ -212,6 +212,11 @@ def extract_item(e):
         item = re.sub(r"\bT\b", e["generic_T"], item)
     for ins in e.get("insert", []):
         # annotation insertion (loop invariants / decreases): `after` must occur exactly once in the item
+        if "before" in ins:
+            if item.count(ins["before"]) != 1:
+                raise ExtractError(f"lost anchor for annotation: `{ins['before']}` in {e['key']}")
+            item = item.replace(ins["before"], ins["text"] + "\n" + ins["before"])
+            continue
         if item.count(ins["after"]) != 1:
             raise ExtractError(f"lost anchor for annotation: `{ins['after']}` in {e['key']}")
         item = item.replace(ins["after"], ins["after"] + "\n" + ins["text"] + "\n")
